@@ -905,9 +905,11 @@ def gen_cases(ctx: Ctx):
     # --- S: nearly symmetric molecules: an almost-equivalent wrong atom map exists (mols_align truncation)
     for _ in range(sc(80, 400)):
         n = rng.randint(3, 6)
-        fl = {"atoms_map": False, "algorithm": "permutative", "mols_align": rng.choice([True, True, 1e-3, False]),
+        # a FLOAT mols_align is the caller's own convergence criterion: below the near-symmetric distortion (1e-6, 1e-7 A) the search
+        # must go on to the applied map (RMSD ~ 0); at 1e-3 it behaves like True (the known truncation class)
+        fl = {"atoms_map": False, "algorithm": "permutative", "mols_align": rng.choice([True, True, 1e-3, False, 1e-6, 1e-7]),
               "run_to_completion": rng.random() < 0.15}
-        yield make_case(rng, rng.choice(["b787", "b787", "molecule"]), "nearsym", n, related="rigid", perm=True, flags=fl, tag="nearsym")
+        yield make_case(rng, rng.choice(["b787", "b787", "molecule"]) if fl["mols_align"] not in (1e-6, 1e-7) else "b787", "nearsym", n, related="rigid", perm=True, flags=fl, tag="nearsym")
     # --- N: near-coincident geometries (np.allclose head-off)
     for _ in range(sc(80, 300)):
         n = rng.randint(2, 12)
